@@ -62,8 +62,31 @@ func guardsIn(p *Program, f *ssa.Function) []guardInfo {
 	return out
 }
 
-// refusalGuards returns the guards that protect every traversal call of f,
-// following the first trie call if f itself has none.
+// ensuredBy: witness paths that are known non-nil whenever f returns normally:
+// nil tests of f whose nil branch panics and whose block lies on every path
+// from entry to a normal return, plus what the callees called on every such
+// path ensure.
+func ensuredBy(p *Program, f *ssa.Function, depth int) []guardInfo {
+	if f == nil || depth > 3 || len(f.Blocks) == 0 {
+		return nil
+	}
+	var out []guardInfo
+	for _, g := range guardsIn(p, f) {
+		if blockPostDominatesEntry(f, g.block) {
+			out = append(out, g)
+		}
+	}
+	for _, c := range callsIn(f) {
+		if g := calleeOf(c); takesTrie(g) && blockPostDominatesEntry(f, c.Block()) {
+			out = append(out, ensuredBy(p, g, depth+1)...)
+		}
+	}
+	return out
+}
+
+// refusalGuards returns the guards that protect every traversal call of f:
+// nil tests in f that dominate them, what a leading helper call ensures, or
+// (wrappers) the guards of the first traversal call itself.
 func refusalGuards(p *Program, f *ssa.Function, depth int) ([]guardInfo, string) {
 	if depth > 3 {
 		return nil, "call chain too deep"
@@ -87,6 +110,26 @@ func refusalGuards(p *Program, f *ssa.Function, depth int) ([]guardInfo, string)
 		}
 		if all {
 			good = append(good, g)
+		}
+	}
+	// leading helper calls: a call that dominates every other traversal call and ensures witnesses
+	for _, c := range trav {
+		ens := ensuredBy(p, calleeOf(c), 0)
+		if len(ens) == 0 {
+			continue
+		}
+		dom := true
+		for _, d := range trav {
+			if d != c && !instrDominates(c, d) {
+				// another guard helper before it is fine
+				if len(ensuredBy(p, calleeOf(d), 0)) > 0 && instrDominates(d, c) {
+					continue
+				}
+				dom = false
+			}
+		}
+		if dom {
+			good = append(good, ens...)
 		}
 	}
 	if len(good) > 0 {
@@ -372,6 +415,50 @@ func checkStop(p *Program, r *Report, sf *ssa.Function) {
 	}
 	if !found {
 		r.Unk("(*trie.SlimTrie).ScanFrom stops on false", p.Pos(sf.Pos()), "no call of the callback found")
+	}
+	// exhaustion is signalled by a nil key; the empty key "" is a legitimate entry (a non-nil,
+	// zero-length slice), so the loop must test the key against nil, not its length
+	for _, c := range callsIn(sf) {
+		call, ok := c.(*ssa.Call)
+		if !ok || call.Common().StaticCallee() != nil || call.Common().Value == ssa.Value(fnParam) {
+			continue
+		}
+		if _, isB := call.Common().Value.(*ssa.Builtin); isB {
+			continue
+		}
+		sig, ok := call.Common().Value.Type().Underlying().(*types.Signature)
+		if !ok || sig.Results().Len() != 2 {
+			continue
+		}
+		for _, ref := range *call.Referrers() {
+			ex, ok := ref.(*ssa.Extract)
+			if !ok || ex.Index != 0 {
+				continue
+			}
+			nilTested, lenTested := false, ""
+			for _, r2 := range *ex.Referrers() {
+				switch x := r2.(type) {
+				case *ssa.BinOp:
+					if _, _, ok := nilTest(x); ok {
+						nilTested = true
+					}
+				case *ssa.Call:
+					if bi, ok := x.Call.Value.(*ssa.Builtin); ok && bi.Name() == "len" {
+						for _, r3 := range *x.Referrers() {
+							if b, ok := r3.(*ssa.BinOp); ok {
+								for _, r4 := range *b.Referrers() {
+									if _, ok := r4.(*ssa.If); ok {
+										lenTested = p.Pos(b.Pos())
+									}
+								}
+							}
+						}
+					}
+				}
+			}
+			r.Check(nilTested && lenTested == "", "(*trie.SlimTrie).ScanFrom ends on a nil key only", p.Pos(call.Pos()), "the key is compared with nil; its length controls no branch",
+				"the scan loop branches on the length of the key ("+lenTested+") or never tests it against nil: the retained key \"\" (a non-nil empty slice) is taken for exhaustion")
+		}
 	}
 }
 
